@@ -55,6 +55,17 @@ pub fn gen_cmd(rng: &mut Rng, w: &CliWorld) -> Cmd {
     let p = *rng.pick(c.probes);
     (lang, p.to_string())
   };
+  let mut cmd = gen_cmd_base(rng, roll, &run_pat);
+  // context lines are a per-file matter too
+  match rng.below(10) {
+    0 => cmd.args.extend([s("-C"), s("1")]),
+    1 => cmd.args.extend([s("-A"), s("2"), s("-B"), s("1")]),
+    _ => {}
+  }
+  cmd
+}
+
+fn gen_cmd_base(rng: &mut Rng, roll: usize, run_pat: &dyn Fn(&mut Rng) -> (String, String)) -> Cmd {
   match roll {
     0..=24 => Cmd { args: vec![s("scan"), s("--json=stream")], mode: s("stream"), inspect: false, is_scan: true },
     25..=34 => Cmd { args: vec![s("scan"), s("--json=compact")], mode: s("compact"), inspect: false, is_scan: true },
@@ -297,7 +308,38 @@ pub fn eval_plan(env: &Env, w: &CliWorld, cmd: &Cmd, plan: &Plan, baselines: &mu
   let mut exp_errors = 0usize;
   let mut exp_scanned = 0usize;
   let mut exp_skipped = 0usize;
-  for d in &sched.discovered {
+  // the union ranges over every file of the tree that the ignore rules do not exclude, not
+  // only over what the walker reported: a file lost at discovery must show up as missing
+  let ignored = |p: &str| w.ignore_file.is_some() && p.split('/').any(|c| c == "vendor");
+  let mut universe: Vec<String> = sched.discovered.clone();
+  // ... restricted to the files the command is meant to process: for `scan` the languages
+  // rules are written for, for `run -l L` that language (files of other languages are not
+  // walked at all because of the type filter, while naming such a file explicitly still
+  // reports e.g. its unused suppressions — the front-end quirk listed under C09)
+  let lang_of = |p: &str| -> Option<&'static str> {
+    let ext = p.rsplit('.').next().unwrap_or("");
+    crate::corpus::CORPORA.iter().find(|c| c.ext == ext).map(|c| c.lang)
+  };
+  let wanted_langs: Vec<String> = if cmd.is_scan {
+    // rules switched off are dropped at load time and do not contribute a file type
+    let mut v: Vec<String> = w.all_rules().iter().filter(|r| r.severity.as_deref() != Some("off")).map(|r| r.language.clone()).collect();
+    v.sort();
+    v.dedup();
+    v
+  } else {
+    match cmd.args.iter().position(|a| a == "-l") {
+      Some(i) => vec![cmd.args[i + 1].clone()],
+      None => crate::corpus::CORPORA.iter().map(|c| c.lang.to_string()).collect(),
+    }
+  };
+  for f in &w.files {
+    let meant = lang_of(&f.path).map(|l| wanted_langs.iter().any(|x| x == l)).unwrap_or(false);
+    if !universe.contains(&f.path) && !ignored(&f.path) && meant {
+      universe.push(f.path.clone());
+    }
+  }
+  for d in &universe {
+    let was_discovered = sched.discovered.contains(d);
     if !world_paths.contains(&d.as_str()) && !env.root.join(d).is_file() {
       continue; // directories
     }
@@ -318,8 +360,10 @@ pub fn eval_plan(env: &Env, w: &CliWorld, cmd: &Cmd, plan: &Plan, baselines: &mu
     }
     expected.extend(b.records.iter().cloned());
     exp_errors += b.errors.unwrap_or(0);
-    exp_scanned += b.scanned.unwrap_or(0);
-    exp_skipped += b.skipped.unwrap_or(0);
+    if was_discovered {
+      exp_scanned += b.scanned.unwrap_or(0);
+      exp_skipped += b.skipped.unwrap_or(0);
+    }
   }
   expected.sort();
   if expected != obs.records {
